@@ -28,8 +28,12 @@ fn read_lines<R: BufRead>(reader: R, args: &Args, planes: &mut Planes) -> Result
 
     let mut app_state = AppCounters::from_update_interval(args.update);
 
-    for line in reader.lines().map_while(Result::ok) {
-        let Some(message) = get_message(&line) else {
+    // read bytes, not `lines()`: a line that is not valid UTF-8 is just another
+    // unusable line and must not end the loop
+    for bytes in reader.split(b'\n').map_while(Result::ok) {
+        let line = String::from_utf8_lossy(&bytes);
+        let line = line.strip_suffix('\r').unwrap_or(&line);
+        let Some(message) = get_message(line) else {
             continue;
         };
 
